@@ -232,7 +232,12 @@ static bool planOf(const Toks& t, size_t& i, Plan& p)
 		p.kind = k == "w" ? 'w' : 's';
 		return true;
 	}
-	if (k == "W") { if (i >= t.size()) return false; return bodyOf(t[i++], p.body); }
+	if (k == "W" || k == "B") { if (i >= t.size()) return false; return bodyOf(t[i++], p.body); }
+	if (k == "F") { // F <pieces written first, '-' = sendHeaders() alone> <file content>: then put(File)
+		if (i + 1 >= t.size()) return false;
+		if (!bodyOf(t[i++], p.rel)) return false;
+		return bodyOf(t[i++], p.body);
+	}
 	if (k == "m") return true;
 	return false;
 }
@@ -379,6 +384,17 @@ public:
 		case 'm': // a file that does not exist
 			r.put(File(String::f("/tmp/c10h.%d.none/missing.bin", (int)getpid())));
 			break;
+		case 'B': // the handler calls write() itself after put(): the serve loop must not write the body again
+			r.put(ByteArray((const byte*)p.body.data(), (int)p.body.size()));
+			r.write();
+			break;
+		case 'F': { // headers (and a first piece) out before a file body is put: the library's own chunks end behind the file
+			Str path = makeFileLocked(p.body, "bin");
+			if (p.rel.empty()) r.sendHeaders();
+			else r.write(p.rel.data(), (int)p.rel.size());
+			r.put(File(S(path)));
+			break;
+		}
 		case 'W': { // the handler writes a file itself, no framing header set
 			Str path = makeFileLocked(p.body, "bin");
 			r.writeFile(S(path));
@@ -521,6 +537,17 @@ static bool rawReadMessage(int fd, Str& pending, Str& msg, int ms)
 		if (v.size() >= 7 && v.compare(v.size() - 7, 7, "chunked") == 0) chunked = true;
 	}
 	size_t need = he;
+	if (cl < 0 && !chunked && head.find("\r\nconnection: close\r\n") != Str::npos) {
+		// neither a length nor chunks, and the sender says it closes: the end of the connection ends the message
+		for (;;) {
+			int k = recvSome(fd, buf, sizeof buf, ms);
+			if (k <= 0) break;
+			pending.append(buf, (size_t)k);
+		}
+		msg = pending;
+		pending.clear();
+		return true;
+	}
 	if (cl >= 0) need = he + (size_t)cl;
 	else if (chunked) {
 		size_t q = he;
